@@ -206,6 +206,8 @@ func init() {
 			k.PNamed, k.PGroupRes = 30, 25
 			k.PFresh = 85
 			k.PDefer, k.PCycleKeep = 25, 15 // cyclic graphs accepted under Defer: both encodings must meet the same verdicts
+			k.PNoResult = 3                 // no results at all == only empty result objects
+			k.POpt, k.PAvail = 25, 88       // optional edges above missing dependencies, in every encoding
 			if rapid.IntRange(0, 99).Draw(t, "wrapmode") < 35 {
 				// order-preserving re-encodings on histories with failing
 				// functions: the same functions must run in both forms
